@@ -156,7 +156,7 @@ def cc(out_name, sources, wraps=(), extra=(), san=True, defines=()):
 
 # ---------------------------------------------------------------- Lean side
 
-def lake_build(targets=('Pm', 'dmdriver', 'hldriver', 'rfdriver', 'lpdriver', 'cfdriver', 'lxdriver', 'cbdriver', 'srdriver')):
+def lake_build(targets=('Pm', 'dmdriver', 'hldriver', 'rfdriver', 'lpdriver', 'cfdriver', 'lxdriver', 'cbdriver', 'srdriver', 'rfcmddriver', 'lldriver', 'lhdriver', 'grdriver')):
     with Lock('lake'):
         r = run(['lake', 'build'] + list(targets), cwd=LEAN)
     return r.returncode == 0, (r.stdout + r.stderr)
